@@ -78,6 +78,13 @@ def run(pid, scen, seed, tier, stats, failing, broken, sh, CACHE, TARGET, infra,
         else:
             st.setdefault('other_property_failures', []).append(f[:200])
     div, n = diff_with_model(prefix, f'sim:{name}')
+    if div and str(div.get('op', '')).startswith('frules '):
+        # frame-rules table vs observed outcome of an injected datagram (scenario frames): a divergence is itself a concrete
+        # failing input for C03 (the datagram's frames and facts are in the request line)
+        key = 'hostile-peer-legal-frames-killed-connection' if div.get('model') == 'ok' else 'hostile-peer-wrong-error-class'
+        if pid in props_for_key(key):
+            failing.append(dict(kind='sim-oracle', component=f'sim:{name}', key=key,
+                                what=f"key={key} observed `{div.get('impl')}` but the frame-rules model admits `{div.get('model')}` case={div.get('case')} request: {div.get('op')[:1500]}"))
     if div and str(div.get('case', '')).startswith('sim-'):
         # the divergent transition was observed on the real endpoints in this execution
         div['replay_cmd'] = f'VERIF_SIM_RAWSEED=1 VERIF_SIM_VERBOSE=2 {os.path.join(TARGET, "debug", "sim")} {name} {div["case"][4:]} 1 /verif/.cache/run/replay   # then: /verif/.cache/driver-{pid} < /verif/.cache/run/replay.ops | diff - /verif/.cache/run/replay.impl'
